@@ -340,6 +340,22 @@ def w_inverse(ctx, rng, i):
                 ctx.tap("pseudoinverse_vector", "calls"); ctx.tap("pseudoinverse_vector", "checked")
                 if got.shape != expect.shape or tx.maxdiff(got, expect) > 1e-9 * max(1.0, float(np.abs(expect).max())):
                     ctx.fail("pseudoinverse_vector_is_not_the_inverse_of_the_given_parameters", cls=type(t).__name__, mech="nearby_vector" if 0 < rel < 1e-4 else "other", err=tx.maxdiff(got, expect))
+    # rotations in their quaternion form: the inverse of the unit quaternion (w, x, y, z) is its conjugate - also for half turns
+    # (w = 0), where q and -q name the same rotation
+    if d == 3 and isinstance(t, mt.Rotation) and not isinstance(t, _Al) and hasattr(t, "pseudoinverse_vector") and rng.random() < 0.5:
+        from props.c05 import unit_quaternion
+        hv = rng.normal(size=3); hv /= np.linalg.norm(hv)
+        for q in (unit_quaternion(rng), np.concatenate([[0.0], hv]), np.array([0.0, 1.0, 0.0, 0.0]), np.array([0.0, 0.0, 0.6, 0.8])):
+            try:
+                got = np.asarray(t.pseudoinverse_vector(q.copy()), dtype=float)
+            except Exception as ex:
+                ctx.fail("pseudoinverse_vector_is_not_the_inverse_of_the_given_parameters", cls="Rotation", mech="raised:" + type(ex).__name__)
+                continue
+            conj = q * np.array([1.0, -1.0, -1.0, -1.0])
+            ctx.tap("pseudoinverse_vector", "calls"); ctx.tap("pseudoinverse_vector", "checked")
+            e_ = min(tx.maxdiff(got, conj), tx.maxdiff(got, -conj)) if got.shape == conj.shape else float("inf")
+            if not (e_ <= 1e-7):
+                ctx.fail("pseudoinverse_vector_is_not_the_inverse_of_the_given_parameters", cls="Rotation", mech="quaternion:" + ("half_turn" if q[0] == 0 else "generic"), err=e_)
     # the inverse of a homogeneous alignment is a working alignment of its own: retargeted, it is the fit from *its* source
     from menpo.transform.base import Alignment
     if isinstance(inv, Alignment) and isinstance(inv, mt.Homogeneous) and rng.random() < 0.5:
